@@ -50,3 +50,166 @@ Example C18_nonvacuous :
   | inl _ => False
   end.
 Proof. vm_compute. repeat split; reflexivity. Qed.
+
+(* ------------------------------------------------------------------------------------
+   ResetOp and SetExtensions INSIDE histories (destination that never fails).
+   Defined in proofs/WriterResetOpProofs.v:
+     redest w d          = w with destination d, every other field unchanged
+     flush_mode b w      = if b then disable_flush w else w
+     shift_calls k o     = observation o with its call counter o_calls increased by k
+     unshift_calls k o   = ... decreased by k
+   [writer_inv], [max_int], [ops_cost] in proofs/WriterInv.v; [steps_of] in proofs/WriterFrameProofs.v;
+   [c06_op] (Write/ReadFrom/WriteThrough/FlushFragment/Flush/Grow/DisableFlush with byte payloads)
+   in proofs/WriterHistProofs.v. *)
+Require Import CipherProofs CheckProofs WriterInv WriterFrameProofs WriterHistProofs WriterResetOpProofs.
+
+(* state level, EVERY continuation h2 (any operations, Reset and SetExtensions included): from any
+   writer without a sticky error (size invariant, destination that never fails), after ResetOp op'
+   the writer behaves as the writer NewWriterBuffer builds over a buffer of the same length for the
+   same side, opcode op' and the remaining mask oracle, given the same extensions and flush mode:
+   same results and accessors (call counter shifted), same destination writes, same final state up
+   to the destination. What was buffered before (an unfinished message) is never sent. The sticky
+   error is NOT cleared by ResetOp, hence the hypothesis (see C18_reset_op_nonvacuous). *)
+Theorem C18_reset_op_then_fresh_any_state : forall op' w1 h2,
+  writer_inv w1 -> w_err w1 = None -> d_fail_at (w_dest w1) = None ->
+  exists f0, new_writer_buffer (mkDest [] None) (w_state w1) op' (w_rawlen w1) (w_masks w1) = inr f0 /\
+    let f := flush_mode (w_noflush w1) (set_extensions (w_exts w1) f0) in
+    let r := run_wops h2 (reset_op op' w1) in let rf := run_wops h2 f in
+    dest_log (w_dest (snd r)) = dest_log (w_dest w1) ++ dest_log (w_dest (snd rf)) /\
+    fst r = map (shift_calls (dest_ncalls (w_dest w1))) (fst rf) /\
+    snd r = redest (snd rf) (w_dest (snd r)).
+Proof. exact reset_op_then_fresh. Qed.
+Print Assumptions C18_reset_op_then_fresh_any_state.
+
+(* history level: every history h1 ++ [ResetOp op'] ++ h2 from every constructor, extensions [] or
+   [c], h1 over Write/ReadFrom/WriteThrough/FlushFragment/Flush/Grow/DisableFlush (h2 arbitrary):
+   h1 runs to its end (w1 = the state it leaves, possibly with a grown buffer, flushing disabled,
+   an unfinished message buffered or partly sent), and the observations and destination writes of the
+   h2 segment are those of a fresh writer f over a buffer of length w_rawlen w1 running h2 *)
+Theorem C18_reset_op_then_fresh : forall h1 h2 op' state op n masks exts comp w00,
+  (new_writer_buffer (mkDest [] None) state op n masks = inr w00 \/
+   new_writer_buffer_size (mkDest [] None) state op n masks = inr w00 \/
+   new_writer_size (mkDest [] None) state op n masks = inr w00) ->
+  n + 14 <= max_int -> op < 16 -> Forall wf_key masks ->
+  ((exts = [] /\ comp = false) \/ exts = [comp]) ->
+  Forall c06_op h1 -> 28 + 4 * ops_cost h1 <= max_int ->
+  let w0 := set_extensions exts w00 in
+  let w1 := snd (run_wops h1 w0) in
+  exists f0, new_writer_buffer (mkDest [] None) (w_state w1) op' (w_rawlen w1) (w_masks w1) = inr f0 /\
+    let f := flush_mode (w_noflush w1) (set_extensions (w_exts w1) f0) in
+    let r := run_wops (h1 ++ WResetOp op' :: h2) w0 in
+    let rf := run_wops h2 f in
+    dest_log (w_dest (snd r)) = dest_log (w_dest w1) ++ dest_log (w_dest (snd rf)) /\
+    firstn (length h1) (fst r) = fst (run_wops h1 w0) /\
+    skipn (S (length h1)) (fst r) = map (shift_calls (dest_ncalls (w_dest w1))) (fst rf) /\
+    snd r = redest (snd rf) (w_dest (snd r)).
+Proof. exact reset_op_history. Qed.
+Print Assumptions C18_reset_op_then_fresh.
+
+(* consequently (C06): the h2 segment (h2 over the C06 operations) satisfies the history monitor
+   c06_monitor with the NEW opcode op' — calls counted from the ResetOp, destination log = the
+   calls made after it, buffer size = the size after h1 *)
+Theorem C06_history_after_reset_op : forall h1 h2 op' state op n masks exts comp w00,
+  (new_writer_buffer (mkDest [] None) state op n masks = inr w00 \/
+   new_writer_buffer_size (mkDest [] None) state op n masks = inr w00 \/
+   new_writer_size (mkDest [] None) state op n masks = inr w00) ->
+  n + 14 <= max_int -> op < 16 -> op' < 16 -> Forall wf_key masks ->
+  ((exts = [] /\ comp = false) \/ exts = [comp]) ->
+  Forall c06_op h1 -> 28 + 4 * ops_cost h1 <= max_int ->
+  Forall c06_op h2 -> 28 + 4 * ops_cost h2 <= max_int ->
+  let w0 := set_extensions exts w00 in
+  let w1 := snd (run_wops h1 w0) in
+  let r := run_wops (h1 ++ WResetOp op' :: h2) w0 in
+  let k := dest_ncalls (w_dest w1) in
+  c06_monitor (client_side state) op' comp (w_buflen w1)
+    (steps_of h2 (map (unshift_calls k) (skipn (S (length h1)) (fst r))))
+    (drop k (dest_log (w_dest (snd r)))) = true.
+Proof. exact history_after_reset_op. Qed.
+Print Assumptions C06_history_after_reset_op.
+
+(* SetExtensions xs at a message boundary (nothing buffered, not dirty, fragment counter 0) inside
+   a history: the rest of the history is the run of a fresh writer with extensions xs ... *)
+Theorem C18_set_ext_at_boundary_then_fresh : forall h1 h2 xs state op n masks exts comp w00,
+  (new_writer_buffer (mkDest [] None) state op n masks = inr w00 \/
+   new_writer_buffer_size (mkDest [] None) state op n masks = inr w00 \/
+   new_writer_size (mkDest [] None) state op n masks = inr w00) ->
+  n + 14 <= max_int -> op < 16 -> Forall wf_key masks ->
+  ((exts = [] /\ comp = false) \/ exts = [comp]) ->
+  Forall c06_op h1 -> 28 + 4 * ops_cost h1 <= max_int ->
+  let w0 := set_extensions exts w00 in
+  let w1 := snd (run_wops h1 w0) in
+  w_buf w1 = [] -> w_dirty w1 = false -> w_fseq w1 = 0 ->
+  exists f0, new_writer_buffer (mkDest [] None) (w_state w1) op (w_rawlen w1) (w_masks w1) = inr f0 /\
+    let f := flush_mode (w_noflush w1) (set_extensions xs f0) in
+    let r := run_wops (h1 ++ WSetExt xs :: h2) w0 in
+    let rf := run_wops h2 f in
+    dest_log (w_dest (snd r)) = dest_log (w_dest w1) ++ dest_log (w_dest (snd rf)) /\
+    firstn (length h1) (fst r) = fst (run_wops h1 w0) /\
+    skipn (S (length h1)) (fst r) = map (shift_calls (dest_ncalls (w_dest w1))) (fst rf) /\
+    snd r = redest (snd rf) (w_dest (snd r)).
+Proof. exact set_ext_history. Qed.
+Print Assumptions C18_set_ext_at_boundary_then_fresh.
+
+(* ... and satisfies the history monitor with the NEW compression flag comp' (xs = [] or [comp']);
+   stated for SetExtensions right after a final Flush, where the boundary condition always holds *)
+Theorem C06_history_after_flush_set_ext : forall h1 h2 xs comp' state op n masks exts comp w00,
+  (new_writer_buffer (mkDest [] None) state op n masks = inr w00 \/
+   new_writer_buffer_size (mkDest [] None) state op n masks = inr w00 \/
+   new_writer_size (mkDest [] None) state op n masks = inr w00) ->
+  n + 14 <= max_int -> op < 16 -> Forall wf_key masks ->
+  ((exts = [] /\ comp = false) \/ exts = [comp]) -> ((xs = [] /\ comp' = false) \/ xs = [comp']) ->
+  Forall c06_op h1 -> 28 + 4 * ops_cost h1 <= max_int ->
+  Forall c06_op h2 -> 28 + 4 * ops_cost h2 <= max_int ->
+  let w0 := set_extensions exts w00 in
+  let w1 := snd (run_wops (h1 ++ [WFlush]) w0) in
+  let r := run_wops ((h1 ++ [WFlush]) ++ WSetExt xs :: h2) w0 in
+  let k := dest_ncalls (w_dest w1) in
+  c06_monitor (client_side state) op comp' (w_buflen w1)
+    (steps_of h2 (map (unshift_calls k) (skipn (S (length (h1 ++ [WFlush]))) (fst r))))
+    (drop k (dest_log (w_dest (snd r)))) = true.
+Proof. exact history_after_flush_set_ext. Qed.
+Print Assumptions C06_history_after_flush_set_ext.
+
+(* the same for SetExtensions at ANY point where the boundary condition holds *)
+Theorem C06_history_after_set_ext : forall h1 h2 xs comp' state op n masks exts comp w00,
+  (new_writer_buffer (mkDest [] None) state op n masks = inr w00 \/
+   new_writer_buffer_size (mkDest [] None) state op n masks = inr w00 \/
+   new_writer_size (mkDest [] None) state op n masks = inr w00) ->
+  n + 14 <= max_int -> op < 16 -> Forall wf_key masks ->
+  ((exts = [] /\ comp = false) \/ exts = [comp]) -> ((xs = [] /\ comp' = false) \/ xs = [comp']) ->
+  Forall c06_op h1 -> 28 + 4 * ops_cost h1 <= max_int ->
+  Forall c06_op h2 -> 28 + 4 * ops_cost h2 <= max_int ->
+  let w0 := set_extensions exts w00 in
+  let w1 := snd (run_wops h1 w0) in
+  w_buf w1 = [] -> w_dirty w1 = false -> w_fseq w1 = 0 ->
+  let r := run_wops (h1 ++ WSetExt xs :: h2) w0 in
+  let k := dest_ncalls (w_dest w1) in
+  c06_monitor (client_side state) op comp' (w_buflen w1)
+    (steps_of h2 (map (unshift_calls k) (skipn (S (length h1)) (fst r))))
+    (drop k (dest_log (w_dest (snd r)))) = true.
+Proof. exact history_after_set_ext. Qed.
+Print Assumptions C06_history_after_set_ext.
+
+Example C18_reset_op_nonvacuous :
+  let masks := [[1; 2; 3; 4]; [5; 6; 7; 8]; [9; 10; 11; 12]] in
+  match new_writer_size (mkDest [] None) 2 1 5 masks with
+  | inr w00 =>
+    (* three bytes of a text message are buffered, ResetOp 2, then a binary message: ONE masked
+       binary frame carrying [9; 8] is all the destination ever sees *)
+    (let '(obs, wE) := run_wops ([WWrite [1; 2; 3]] ++ WResetOp 2 :: [WWrite [9; 8]; WFlush]) w00 in
+     dest_log (w_dest wE) = [[130; 130; 1; 2; 3; 4; 8; 10]] /\ map o_buffered obs = [3; 0; 2; 0]) /\
+    (* the sticky error survives ResetOp: two compression extensions make the first fragment fail
+       with the extension error; after ResetOp (and even after removing the extensions) nothing is
+       ever sent, while a fresh writer sends the message *)
+    (let w0 := set_extensions [true; true] w00 in
+     let '(obs, wE) := run_wops ([WWrite [1; 2; 3; 4; 5; 6; 7; 8; 9]] ++ WResetOp 2 :: [WSetExt []; WWrite [9; 8]; WFlush]) w0 in
+     dest_log (w_dest wE) = [] /\ w_err wE = Some WExt /\
+     match new_writer_buffer (mkDest [] None) 2 2 (w_rawlen w0) masks with
+     | inr f0 =>
+       let '(_, wf) := run_wops [WSetExt []; WWrite [9; 8]; WFlush] (set_extensions [true; true] f0) in
+       dest_log (w_dest wf) = [[130; 130; 1; 2; 3; 4; 8; 10]] /\ w_err wf = None
+     | inl _ => False
+     end)
+  | inl _ => False
+  end.
+Proof. vm_compute. repeat split; reflexivity. Qed.
